@@ -109,6 +109,13 @@ static void h_op(void)
   if (h_skip) { h_out("skipped-after-hangs"); return; }
 
   if (!strcmp(op, "seed64")) { if (R64) esl_rand64_Destroy(R64); R64 = esl_rand64_Create(h_argu("s", 1)); h_out("ok"); return; }
+  if (!strcmp(op, "poke64")) {   /* force the next (pre-tempering) state word of the 64-bit generator (esl_rand64_Roll rejection boundary) */
+    if (!R64) { h_out("bad-op"); return; }
+    if (R64->mti >= 312) (void) esl_rand64(R64);
+    R64->mt[R64->mti] = (uint64_t) h_argu("raw", 0);
+    h_out("ok");
+    return;
+  }
   if (!strcmp(op, "peek64")) { if (!R64) h_out("bad-op"); else h_out("ok %" PRIu64, esl_rand64(R64)); return; }
   if (!strcmp(op, "dshuffle64") || !strcmp(op, "fshuffle64") || !strcmp(op, "ishuffle64") || !strcmp(op, "lshuffle64")) {
     char **f, *dup; const char *vv = h_arg("v"); int n, i; char num[24];
